@@ -47,6 +47,16 @@ type Meta struct {
 	Tag     string     `json:"tag,omitempty"`
 	From    netip.Addr `json:"from"`
 	Flow    int        `json:"flow"` // which run's probe caused it (sink id), -1 unknown
+	// Dest: a genuine reply that proves arrival at the target for a probe of the run (the run stops sending once it has processed one)
+	Dest bool `json:"dest,omitempty"`
+}
+
+// OrderEv is one entry of the global order of wire operations (independent of the clock): "tx" (a probe handed to a sink),
+// "read-call" (a capture handle asked for the next packet), "read-dest" (a capture handle was handed a Meta.Dest packet).
+type OrderEv struct {
+	Kind   string
+	Handle int
+	Flow   int
 }
 
 type Event struct {
@@ -91,6 +101,7 @@ type Net struct {
 	Sources    []*Source
 	Sinks      []*Sink
 	Ledger     []Event
+	Order      []OrderEv // global order of sends and reads (clock-independent)
 	Calls      []Call
 	counts     map[string]int
 	// SACK: real listeners whose accepted connections trigger a synthesized SYN-ACK
@@ -193,6 +204,7 @@ func (s *Sink) WriteTo(buf []byte, addr netip.AddrPort) error {
 	p, err := refcodec.Parse(raw)
 	ev := Event{T: vsched.Now(), Dir: "tx", Raw: raw, P: p, Sink: s.ID, Thread: vsched.CurrentThread(), Meta: Meta{ToTTL: -1, Flow: s.ID}}
 	n.Ledger = append(n.Ledger, ev)
+	n.Order = append(n.Order, OrderEv{"tx", s.ID, s.ID})
 	if err != nil {
 		return nil // a real raw socket would reject some of these; the oracle judges the ledger
 	}
@@ -276,6 +288,7 @@ func (n *Net) deliver(raw []byte, m Meta, outgoing bool) {
 			}
 		}
 		src.queue = append(src.queue, frame)
+		src.qmeta = append(src.qmeta, m)
 		ev.Seen[i] = true
 	}
 	n.Ledger = append(n.Ledger, ev)
@@ -287,6 +300,7 @@ type Source struct {
 	ID       int
 	n        *Net
 	queue    [][]byte
+	qmeta    []Meta
 	deadline int64 // virtual ns; -1 none
 	closed   bool
 	Closes   int
@@ -333,6 +347,7 @@ func (s *Source) Read(buf []byte) (int, error) {
 		return 0, os.ErrClosed
 	}
 	n := s.n
+	n.Order = append(n.Order, OrderEv{"read-call", s.ID, -1})
 	n.pollListeners()
 	if s.closed {
 		vsched.Yield("src.Read")
@@ -364,6 +379,12 @@ func (s *Source) Read(buf []byte) (int, error) {
 	}
 	f := s.queue[0]
 	s.queue = s.queue[1:]
+	if len(s.qmeta) > 0 {
+		if m := s.qmeta[0]; m.Dest {
+			n.Order = append(n.Order, OrderEv{"read-dest", s.ID, m.Flow})
+		}
+		s.qmeta = s.qmeta[1:]
+	}
 	// the real source reads the frame into buf (truncating), then strips the Ethernet header
 	if len(f) > len(buf) {
 		f = f[:len(buf)]
@@ -422,6 +443,7 @@ func (s *Source) SetPacketFilter(spec packets.PacketFilterSpec) error {
 	}
 	// drop-all, drain, attach
 	s.queue = nil
+	s.qmeta = nil
 	s.vm = vm
 	return nil
 }
